@@ -75,7 +75,9 @@ class GLeaf:
         return Sym({ast.Lt: a < b, ast.LtE: a <= b, ast.Gt: a > b, ast.GtE: a >= b, ast.Eq: a == b, ast.NotEq: a != b}[type(op)])
 
     def __pyvc_truth__(self, eng):
-        return True
+        # an opaque value may be falsy in Python (0, "", empty collection, False): code that tests truthiness instead of `is None` must
+        # behave the same on both branches
+        return eng.fork(z3.Bool(f'truthy_{self.name}'))
 
     def __pyvc_type__(self, eng):
         return self.ty
